@@ -217,7 +217,8 @@ Section Conv.
     intros Hx Hy Tx Ty Kd No E Em.
     assert (Nxy : x <> y) by (intros ->; now apply No).
     assert (R : rust_name conv cc scope x = rust_name conv cc scope y).
-    { eapply display_inj_on; [exact E| | |exact Em]; cbn; tauto. }
+    { unfold emitted in Em. rewrite <- Kd in Em. destruct (is_const_kind (s_kind x)); [exact Em|].
+      eapply display_inj_on; [exact E| | |exact Em]; cbn; tauto. }
     unfold rust_name in R. rewrite Tx, Ty in R.
     assert (KE : name0 conv cc x = name0 conv cc y -> key conv cc x = key conv cc y).
     { intros H. unfold key. now rewrite H, Kd. }
@@ -282,11 +283,34 @@ Proof.
   - intros x [H|[H|[]]]; subst; split; reflexivity.
   - assert (E : map (emitted conv cc self_scope) self_scope = ["self_"; "self_"]).
     { destruct cc.
-      - unfold emitted, rust_name, collides, key, name0, self_scope. cbn [map s_tag s_kind s_orig negb orb is_item_kind].
+      - unfold emitted, rust_name, collides, key, name0, self_scope. cbn [map s_tag s_kind s_orig negb orb is_item_kind is_const_kind].
         rewrite C1. destruct C2 as [C2|C2]; rewrite C2; reflexivity.
       - reflexivity. }
     rewrite E. intros N. inversion N as [|? ? H _]; subst. apply H. now left.
 Qed.
+
+(* ---- constants bypass Display: a const called like a keyword is pasted as it is (finding F-14n) -------- *)
+Lemma const_keyword_refuted :
+  forall (conv : kind -> string -> string),
+    let scope := [mkSib KConst "in" None] in
+    emitted conv false scope (mkSib KConst "in" None) = "in" /\
+    plain_ident "in" = true /\ ident_token_ok (emitted conv false scope (mkSib KConst "in" None)) = false.
+Proof. intros conv. repeat split. Qed.
+
+(* Display never yields a strict or reserved keyword *)
+Lemma keywords_no_hash : forallb (fun k => negb (has_hash k)) rust_keywords = true.
+Proof. vm_compute. reflexivity. Qed.
+
+Lemma token_ok_not_keyword t : ident_token_ok t = true -> ~ In t rust_keywords.
+Proof.
+  unfold ident_token_ok. intros H I. destruct (strip_raw t) eqn:E.
+  - apply strip_raw_spec in E. subst t.
+    pose proof keywords_no_hash as K. rewrite forallb_forall in K. apply K in I. discriminate.
+  - apply andb_prop in H. destruct H as [_ H]. apply negb_true_iff in H. apply mem_false in H. now apply H.
+Qed.
+
+Lemma display_not_keyword s : plain_ident s = true -> ~ In (display s) rust_keywords.
+Proof. intros P. apply token_ok_not_keyword. now apply display_token_ok. Qed.
 
 (* ---- non-vacuity: a concrete idempotent conversion and a scope with a case collision ---------- *)
 Definition conv_toy (_ : kind) (s : string) : string := lower s.
